@@ -21,7 +21,8 @@ func init() {
 		Rule: "a case is one seeded operation history on an initially empty quadtree (engine 'history': 1-400 operations, swarm-drawn " +
 			"operation mix, alphabet size 2-64, dyadic coordinates biased to midlines and the bound; engine 'tiny': mutation histories of " +
 			"length <= 6 over a 5-point alphabet with a full query sweep after every step; engine 'floaty': arbitrary float64 bounds and points, including points placed exactly on " +
-			"cell midlines computed both as (lo+hi)/2 and lo+(hi-lo)/2, pointers stored as non-comparable value types, checked only with oracles that need no arithmetic). Distinct = distinct event-log digest; " +
+			"cell midlines computed both as (lo+hi)/2 and lo+(hi-lo)/2, pointers stored as non-comparable value types, checked only with oracles that need no arithmetic; also bounds that are infinite on an axis and bounds of 1e-160 around zero). " +
+			"In 'history' a fifth of the runs alternate between two trees, results are either handed back as the next buffer (chained) or kept and compared again after every later call, a quarter of the runs share one array out as k-slot result windows, one predicate in ten searches the same tree itself. Distinct = distinct event-log digest; " +
 			"non-trivial = at least 3 operations completed.",
 		StateDef: "engine tiny: distinct mutation-history prefixes of length <= 6 over the 12-symbol alphabet (out of 3257437); " +
 			"engine history: distinct (multiset of live points, last operation kind) signatures",
